@@ -51,6 +51,7 @@ type World struct {
 	P    *Profile
 
 	db      *statedb.DB
+	ghost   statedb.RWTable[*Obj] // a table object that is not registered with db
 	metrics *simMetrics
 	tables  []*TableCtx
 	nReg    int // tables whose registration has returned
@@ -282,6 +283,20 @@ func (w *World) setupTask(t *simcore.Task) {
 		if !w.newTable(t) {
 			return
 		}
+	}
+	if p.GhostTable && nTables > 0 && c.Choose(2) == 0 {
+		// a table object that is not registered with the database: registration under a taken name fails
+		func() {
+			defer func() {
+				if r := recover(); r != nil && simcore.IsAbort(r) {
+					panic(r)
+				}
+			}()
+			g, err := statedb.NewTable[*Obj](w.db, w.tables[0].M.Name, idIndex)
+			if err != nil && g != nil {
+				w.ghost = g
+			}
+		}()
 	}
 	if err := w.db.Start(); err != nil {
 		w.violate("HARNESS", "start", "%v", err)
